@@ -1,20 +1,5 @@
-(* C09 — Syslog header parsing is faithful and every message is accounted for.
-   PRELIMINARY: the model mirrors the code before the two repairs; the two defects as theorems. *)
+(* C09 — placeholder while the proofs are being written *)
 From SV Require Import Model.Common Model.Utf8 Model.Parser.
-
-Definition default_cfg (mm mr : N) : config := {| max_msg := mm; max_rec := mr; level_mapping := severity_names |}.
-
-(* "< " followed by 30 bytes: Parse panics in val[len(val)-2:] and the message is counted neither as passed nor dropped *)
-Theorem C09_no_panic_refuted :
-  exists input, parse (default_cfg 64 96) counters_zero input = (Panic site_pri_suffix, counters_zero).
-Proof. exists (60 :: 32 :: repeat 120 30). vm_compute. reflexivity. Qed.
-Print Assumptions C09_no_panic_refuted.
-
-(* a message longer than the limit in a record shorter than the record limit is cut inside a rune *)
-Theorem C09_truncation_refuted :
-  exists input r c, parse (default_cfg 16 300) counters_zero input = (Ok (Some r), c) /\ valid (f_log r) = false.
-Proof.
-  exists ([60;49;51;62;49;32;116;32;104;32;97;32;112;32;115;32;101;32] ++ repeat 97 15 ++ [228;184;150;122]).
-  eexists. eexists. split. vm_compute. reflexivity. vm_compute. reflexivity.
-Qed.
-Print Assumptions C09_truncation_refuted.
+Theorem C09_example_tmp : to_valid_utf8 [228;184;150;255] = [228;184;150].
+Proof. vm_compute. reflexivity. Qed.
+Print Assumptions C09_example_tmp.
